@@ -320,3 +320,102 @@ Proof.
   - intros d Hd Hh. apply (Ha d Hd). apply Hm. exact Hh.
   - apply Hc. exists l. auto.
 Qed.
+
+(* ---------- the returned count is exactly the number of cache entries removed ---------- *)
+Definition csize (cs : caches) : Z := map_fold (fun _ ks acc => Z.of_nat (length ks) + acc) 0 cs.
+Definition cs_nodup (cs : caches) : Prop := forall c ks, cs !! c = Some ks -> NoDup ks.
+
+Lemma csize_insert_new (cs : caches) c ks : cs !! c = None -> csize (<[c := ks]> cs) = Z.of_nat (length ks) + csize cs.
+Proof.
+  intros Hn. unfold csize. rewrite map_fold_insert_L; [reflexivity| |exact Hn]. intros; lia.
+Qed.
+
+Lemma csize_insert_upd (cs : caches) c ks ks' :
+  cs !! c = Some ks -> csize (<[c := ks']> cs) = csize cs - Z.of_nat (length ks) + Z.of_nat (length ks').
+Proof.
+  intros Hc. rewrite <- (insert_delete cs c ks Hc) at 2. rewrite <- (insert_delete_insert cs c ks').
+  rewrite !csize_insert_new by apply lookup_delete. lia.
+Qed.
+
+Lemma filter_remove_length (k : key) ks :
+  NoDup ks -> k ∈ ks ->
+  Z.of_nat (length (List.filter (fun x => negb (bool_decide (x = k))) ks)) = Z.of_nat (length ks) - 1.
+Proof.
+  induction ks as [|x ks IH]; intros Hnd Hin; [by apply elem_of_nil in Hin|].
+  apply NoDup_cons in Hnd as [Hx Hnd]. cbn [List.filter].
+  destruct (decide (x = k)) as [->|Hne].
+  - rewrite bool_decide_eq_true_2 by done. cbn [negb length].
+    assert (Hsame : List.filter (fun x => negb (bool_decide (x = k))) ks = ks).
+    { clear IH Hin Hnd. induction ks as [|y ks IH]; [done|]. cbn [List.filter].
+      rewrite bool_decide_eq_false_2 by (intros ->; apply Hx; left). cbn. f_equal. apply IH.
+      intros H. apply Hx. by right. }
+    rewrite Hsame. lia.
+  - rewrite bool_decide_eq_false_2 by done. cbn [negb length].
+    apply elem_of_cons in Hin as [->|Hin]; [done|]. rewrite Nat2Z.inj_succ. rewrite (IH Hnd Hin). lia.
+Qed.
+
+Lemma filter_nodup (k : key) ks : NoDup ks -> NoDup (List.filter (fun x => negb (bool_decide (x = k))) ks).
+Proof.
+  induction ks as [|x ks IH]; intros Hnd; [constructor|]. apply NoDup_cons in Hnd as [Hx Hnd]. cbn [List.filter].
+  destruct (negb (bool_decide (x = k))); [|by apply IH]. apply NoDup_cons. split; [|by apply IH].
+  intros Hin. apply Hx. apply elem_of_list_In in Hin. apply filter_In in Hin as [Hin _]. by apply elem_of_list_In.
+Qed.
+
+Lemma del1_count broken cs c k r cs' :
+  cs_nodup cs -> del1 broken cs c k = (r, cs') ->
+  cs_nodup cs' /\ csize cs - csize cs' = (match r with DOk => 1 | _ => 0 end).
+Proof.
+  intros Hnd. unfold del1. destruct (bool_decide ((c, k) ∈ broken)); [intros [= <- <-]; split; [done|lia]|].
+  destruct (cs !! c) as [ks|] eqn:Hc; [|intros [= <- <-]; split; [done|lia]].
+  destruct (bool_decide (k ∈ ks)) eqn:Hk; [|intros [= <- <-]; split; [done|lia]].
+  intros [= <- <-]. apply bool_decide_eq_true in Hk. split.
+  - intros c' ks' Hl. apply lookup_insert_Some in Hl as [[<- <-]|[_ Hl]]; [apply filter_nodup; eauto|eauto].
+  - rewrite (csize_insert_upd _ _ _ _ Hc). rewrite (filter_remove_length k ks (Hnd _ _ Hc) Hk). lia.
+Qed.
+
+Lemma del_key_count broken ds : forall cs k cnt ok cs' cnt',
+  cs_nodup cs -> del_key broken cs ds k cnt = (ok, cs', cnt') ->
+  cs_nodup cs' /\ cnt' - cnt = csize cs - csize cs'.
+Proof.
+  induction ds as [|d ds IH]; intros cs k cnt ok cs' cnt' Hnd H; cbn [del_key] in H; [injection H as <- <- <-; split; [done|lia]|].
+  destruct (del1 broken cs d k) as [r cs1] eqn:H1. destruct (del1_count _ _ _ _ _ _ Hnd H1) as [Hnd1 Hc1].
+  destruct r.
+  - destruct (IH _ _ _ _ _ _ Hnd1 H) as [Hnd2 Hc2]. split; [done|lia].
+  - destruct (IH _ _ _ _ _ _ Hnd1 H) as [Hnd2 Hc2]. split; [done|lia].
+  - injection H as <- <- <-. split; [done|lia].
+Qed.
+
+Lemma del_keys_count broken ds ks : forall cs deleted cnt ok cs' cnt' deleted',
+  cs_nodup cs -> del_keys broken cs ds ks deleted cnt = (ok, cs', cnt', deleted') ->
+  cs_nodup cs' /\ cnt' - cnt = csize cs - csize cs'.
+Proof.
+  induction ks as [|k ks IH]; intros cs deleted cnt ok cs' cnt' deleted' Hnd H; cbn [del_keys] in H;
+    [injection H as <- <- <- <-; split; [done|lia]|].
+  destruct (bool_decide (k ∈ deleted)); [by eapply IH|].
+  destruct (del_key broken cs ds k cnt) as [[ok1 cs1] cnt1] eqn:H1.
+  destruct (del_key_count _ _ _ _ _ _ _ _ Hnd H1) as [Hnd1 Hc1]. destruct ok1.
+  - destruct (IH _ _ _ _ _ _ _ Hnd1 H) as [Hnd2 Hc2]. split; [done|lia].
+  - injection H as <- <- <- <-. split; [done|lia].
+Qed.
+
+Lemma del_labels_count broken ds cut : forall cs deleted cnt ok cs' cnt' deleted' pending,
+  cs_nodup cs -> del_labels broken cut cs ds deleted cnt = (ok, cs', cnt', deleted', pending) ->
+  cs_nodup cs' /\ cnt' - cnt = csize cs - csize cs'.
+Proof.
+  induction cut as [|[l ks] cut IH]; intros cs deleted cnt ok cs' cnt' deleted' pending Hnd H; cbn [del_labels] in H;
+    [injection H as <- <- <- <- <-; split; [done|lia]|].
+  destruct (del_keys broken cs ds ks deleted cnt) as [[[ok1 cs1] cnt1] deleted1] eqn:H1.
+  destruct (del_keys_count _ _ _ _ _ _ _ _ _ _ Hnd H1) as [Hnd1 Hc1]. destruct ok1.
+  - destruct (IH _ _ _ _ _ _ _ _ Hnd1 H) as [Hnd2 Hc2]. split; [done|lia].
+  - injection H as <- <- <- <- <-. split; [done|lia].
+Qed.
+
+(* whether the call succeeds or fails half-way: the count it reports is the number of entries it removed *)
+Theorem invalidate_name_count broken lk cs ds ls mid ok cnt lk' cs' :
+  cs_nodup cs -> invalidate_name broken lk cs ds ls mid = (ok, cnt, lk', cs') ->
+  cnt = csize cs - csize cs' /\ cs_nodup cs'.
+Proof.
+  intros Hnd. unfold invalidate_name. destruct (cut_keys lk ls []) as [cut lk1].
+  destruct (del_labels broken cut cs ds [] 0) as [[[[ok1 cs1] cnt1] del1'] pend] eqn:H1.
+  intros [= <- <- <- <-]. destruct (del_labels_count _ _ _ _ _ _ _ _ _ _ _ Hnd H1) as [Hnd1 Hc]. split; [lia|done].
+Qed.
